@@ -28,6 +28,7 @@ func init() {
 					"A violation of the real run is attributed to known finding F1 iff it disappears in the counterfactual run and every parent index the hook saw was i/2 or (i-1)/2; any violation in a counterfactual run is a VIOLATION. " +
 					"Reorder to an unrelated order: every heap arrangement of 7 (8 thorough) distinct keys x every ranking as the new order, random ones for 8..24 elements, drain checked under the new order (counterfactual switch on). Very large queues: 262143..1.2 M elements (4 M thorough) put in by Set and Add and drained (count, conservation, drain order with the counterfactual switch on). Long-lived queues: one instance carries 120 000 (500 000 thorough) operations under light observation. heapq.Sort: every input of length <= 7 over 4 values (exhaustive) and random inputs up to 2000. " +
 					"heapq.Sort: every input of length <= 7 over 4 keys, random inputs to 20000, and inputs in order under the comparator in use except for one displaced element (smallest last, largest first, last two exchanged, middle to end, ...) for every length 0..300 and a few to 70001. " +
+					"The comparison function notes its arguments: only elements that were handed to the queue may be passed to it. " +
 					"distinct = hash of the op list; non-trivial = the queue reached >= 16 elements or an interior Remove(i) occurred",
 				Required:     []string{"histories", "histories_size_ge16", "interior_removes", "pushup_even_index_calls", "reorders", "sort_inputs", "sort_inputs_one_element_out_of_place", "drains", "large_queue_histories", "big_element_histories", "sparse_observation_histories", "long_lived_queue_runs", "very_large_queues", "reorder_to_unrelated_order_cases", "histories_with_bound_method_values_or_moved_struct"},
 				Exhaustive:   false,
